@@ -290,7 +290,9 @@ def r2_runner(chk, rl):
     if ok:
         c = [i.context_expr for i in ws[0].items if call_name(i.context_expr) == "TemporaryDirectory"][0]
         d = kwarg(c, "dir")
-        ok = d is not None and "scratch_dir" in names_in(d)
+        from ..canon import Env as _Env
+
+        ok = d is not None and "scratch_dir" in norm(_Env(src).expand(d, at=ws[0]))
     chk.decide(ok, "C17.R2", f"{rl.key}:scratch-is-a-managed-tempdir", rl.where(ws[0] if ws else None), "with TemporaryDirectory(dir=scratch_dir): removed on every exit",
                "the scratch directory is not a with-managed TemporaryDirectory under the requested scratch dir: residue is left behind (or the wrong place is used)")
     # command loop
@@ -352,10 +354,17 @@ def r2_runner(chk, rl):
     chk.decide(ok and no_other_exit, "C17.R2", f"{rl.key}:stops-at-first-failure", rl.where(where), "non-zero return code -> fail = i; break",
                "the command loop is not left at the first non-zero return code (later commands still run, or the failure position is not recorded)")
     # captured output: the file a named command's stdout / stderr goes to is the file read back into stdouts / stderrs
+    # a variable that walks a list of names stands for what was put into that list: `for n2 in names` with `names.append(name)` -> n2 is `name`
+    walks = {}
+    for lp in [x for x in walk_no_nested(src) if isinstance(x, ast.For) and isinstance(x.target, ast.Name) and isinstance(x.iter, ast.Name)]:
+        put = {norm(c.args[0]) for c in walk_no_nested(src) if isinstance(c, ast.Call) and norm(c.func) == f"{lp.iter.id}.append" and len(c.args) == 1 and isinstance(c.args[0], ast.Name)}
+        if len(put) == 1:
+            walks[lp.target.id] = put.pop()
+
     def tmpl(e):
         """path templates an expression can stand for ('{name}.out'), '<devnull>' for the null device"""
         if isinstance(e, ast.JoinedStr):
-            return {"".join(v.value if isinstance(v, ast.Constant) else "{" + norm(v.value) + "}" for v in e.values)}
+            return {"".join(v.value if isinstance(v, ast.Constant) else "{" + walks.get(norm(v.value), norm(v.value)) + "}" for v in e.values)}
         if isinstance(e, ast.Constant) and isinstance(e.value, str):
             return {e.value}
         if norm(e) in ("os.devnull", "DEVNULL", "subprocess.DEVNULL"):
